@@ -28,6 +28,10 @@ RULES = {
              "condition skips or repeats entries across a rotation",
     "C01.6": "no entry is skipped because the batch went on after a budget stop (= C03.4): once the parser has given up an entry for the byte budget, nothing more is pushed in that "
              "call",
+    "C01.7": "a reader leaves a sealed block only at its end: every step to the next block of the chain (cur_block_idx := idx + 1 in read_next, the planner's chain index += 1 in "
+             "batch_read_for_topic) is taken on the true edge of `offset >= block.used`, where offset is the cursor's own offset (or the planner's copy of it) - or, in a consuming "
+             "read_next, that offset plus the size of the entry just read and returned. A looser test (`offset + header >= used`, a planned end of range) steps over entries that "
+             "were never delivered; an equivalent test inside a helper is accepted when the helper returns exactly that comparison of its arguments",
 }
 
 
@@ -378,6 +382,97 @@ def check_seal_fold(ctx, facts):
             ctx.violate("C01.5", F, "fold-siblings-differ:" + fld, b.relfile, sts[0][0].line, "the fast and the slow path fold %s differently: %s" % (fld, sorted(norm)))
 
 
+def _helper_is_exact_end_test(facts, call_node):
+    """callee returns `arg_off >= (arg_block).used` (nothing else): (index of offset arg, index of block arg) or None"""
+    name = strip_generics(call_node.get("callee") or "")
+    hb = next((bb_ for nn, bb_ in facts.bodies.items() if strip_generics(nn) == name), None)
+    if hb is None or hb.j.get("derived") or str(hb.j.get("ret_ty", "")) != "bool":
+        return None
+    rets = []
+    for site, st in hb.assigns():
+        if st["place"]["l"] == 0 and not st["place"]["p"]:
+            rets.append(st)
+    if len(rets) != 1 or rets[0]["rv"]["k"] != "bin" or rets[0]["rv"]["op"] != "Ge":
+        return None
+    ea, eb = strip_refs(expr(hb, rets[0]["rv"]["a"])), strip_refs(expr(hb, rets[0]["rv"]["b"]))
+    if ea[0] == "v" and 1 <= ea[1] <= hb.arg_count and eb[0] == "field" and eb[3] == "used":
+        base = strip_refs(eb[1])
+        if base[0] == "v" and 1 <= base[1] <= hb.arg_count:
+            return (ea[1] - 1, base[1] - 1)
+    return None
+
+
+def check_block_left_at_end(ctx, facts):
+    from .c02 import _is_cursor_offset_load
+    n = 0
+    for fn_name in ("read_next", "batch_read_for_topic"):
+        b = facts.body(fn_name)
+        F = common.short_fn(b.name)
+        cp = checkpoint_edges(b)
+        steps = []
+        # (A) stores cur_block_idx := x + 1
+        for site, st in b.assigns():
+            p = st["place"]
+            if p["p"] and isinstance(p["p"][-1], dict) and p["p"][-1].get("n") == "cur_block_idx" and st["rv"]["k"] in ("use", "cast"):
+                e = strip_refs(expr(b, st["rv"]["op"]))
+                if e[0] == "Add" and fmtfeat.const_eval(e[2]) == 1:
+                    steps.append(site)
+        # (B) the planner's chain index: a usize local compared `< len(chain)` and incremented by 1
+        idx_locals = set()
+        for T in all_tests(b):
+            if T.kind == "cmp" and T.op == "Lt":
+                eb = strip_refs(expr(b, T.b))
+                la = op_local(b.resolve_copy(T.a))
+                if la is not None and eb[0] == "len" and b.local_name(la):
+                    cs = call_site_of(b, T.b)
+                    ty = ""
+                    if cs is not None and cs.node["args"]:
+                        al = borrowed_local(b, cs.node["args"][0])
+                        ty = b.local_ty(al) if al is not None else ""
+                        if not ty:
+                            ty = b.local_ty(op_local(cs.node["args"][0])) if op_local(cs.node["args"][0]) is not None else ""
+                    if "block::Block" in ty or "chain" in show(eb, 6):
+                        idx_locals.add(la)
+        for l in idx_locals:
+            for site, kind, node in b.defs.get(l, []):
+                if kind == "assign" and node["rv"]["k"] in ("use", "cast"):
+                    e = strip_refs(expr(b, node["rv"]["op"]))
+                    if e[0] == "Add" and fmtfeat.const_eval(e[2]) == 1 and show(strip_refs(e[1]), 4) == b.local_name(l):
+                        # only the step taken because the block is declared exhausted (under the true edge of a test
+                        # about the block); the step after a range of the block has been planned is bookkeeping
+                        decl = False
+                        for T2 in all_tests(b):
+                            if T2.kind == "cmp" and b.edge_guards(T2.true_edge, site.bb) and ".used" in (show(strip_refs(expr(b, T2.a)), 6) + show(strip_refs(expr(b, T2.b)), 6)):
+                                decl = True
+                            if T2.kind == "call" and T2.site is not None and b.edge_guards(T2.true_edge, site.bb) and \
+                                    any("block::Block" in b.local_ty(op_local(a_)) for a_ in T2.site.node["args"] if op_local(a_) is not None):
+                                decl = True
+                        if decl:
+                            steps.append(site)
+        for site in steps:
+            n += 1
+            ok = None
+            from .c02 import end_guards
+            for edge, off_op in end_guards(b):
+                if not b.edge_guards(edge, site.bb):
+                    continue
+                if _is_cursor_offset_load(b, off_op):
+                    ok = "cursor offset >= block.used"
+                else:
+                    ea = strip_refs(expr(b, off_op))
+                    if ea[0] == "Add" and guarded(b, site.bb, cp):
+                        src, _, _ = origins(b, off_op)
+                        if any(o.kind == "call" and o.what.endswith("block::Block::read") for o in src):
+                            ok = "offset + size of the entry just read >= block.used (consuming read)"
+            if ok:
+                ctx.ok("C01.7", F, "step to the next block under " + ok, b.relfile, site.line)
+            else:
+                ctx.violate("C01.7", F, "block-left-before-its-end", b.relfile, site.line,
+                            "the reader steps to the next block of the chain without `cursor offset >= block.used` having been established: whatever still lies between the "
+                            "cursor and the end of this block (an empty entry behind `offset + header >= used`, entries behind a planned end of range) is never delivered")
+    ctx.floor("C01.7", "steps to the next sealed block", n, 2)
+
+
 def run(ctx):
     for k, v in RULES.items():
         ctx.rule(k, v)
@@ -391,6 +486,7 @@ def run(ctx):
     check_seal_fold(ctx, facts)
     from .c03 import check_budget_stop_ends_batch
     check_budget_stop_ends_batch(ctx, facts, rid="C01.6")
+    check_block_left_at_end(ctx, facts)
     ctx.assume("NOT decided: ordering and once-only delivery across blocks, the planner/budget interaction (e.g. a budget that ends inside a sealed block while the tail holds entries), rotation arithmetic")
     return {
         "explanation": "four structural clauses on MIR: must-pass-through between the per-entry counter and the push into the returned vector (with offset-addressed-only edges derived "
